@@ -45,7 +45,8 @@ func (r *symlinkResolver) append(p string) error {
 			p = absParts[1]
 		}
 	}
-	p = filepath.Join(".", p)
+	// a requested path is resolved as if the tree root were "/": ".." never leaves it
+	p = filepath.Join(".", filepath.Join(string(filepath.Separator), p))
 	current := "."
 	for {
 		parts := strings.SplitN(p, string(filepath.Separator), 2)
